@@ -26,11 +26,12 @@ from . import common as C
 sys.path.insert(0, C.VERIF)
 from gen.progs import gen_program            # noqa: E402
 from gen.frag import gen_frag_program        # noqa: E402
-from gen.hist02 import gen_history, gen_model_history   # noqa: E402
+from gen.hist02 import (gen_history, gen_model_history, gen_k02a_pattern, gen_k02b_pattern,   # noqa: E402
+                        gen_module_program)
 
 PID = "C02"
 META = {
-    "ready": False,
+    "ready": True,
     "category": "proof",
     "technique": "Lean 4 theorems about the configuration-dependent mechanisms on the lowered core of C01 (inlining pass preserves the reference semantics; two-tier execution is schedule-independent; unit-local inlining across evaluation histories is transparent exactly under a stated guard, with a machine-checked counter-witness outside it; the tested configuration sets cover the switches extracted from the source) + differential execution of generated programs and piecewise histories under a pairwise-covering (quick) / the complete (thorough) set of switch settings, one process per configuration, with the reference semantics as a third party",
     "level_text": "Proved (SteelVerif/C02/Props.lean), for all programs of the lowered core, all stacks, all call depths: inline_preserves (one pass of the inliner with the real legality conditions - known unit-local callee, size below threshold, exact operand count, policy 'defined before the call site and not assigned in the unit' - yields a value iff the original does, and the same one; also with every procedure body of the unit rewritten), inline_twice_preserves (STEEL_INLINE: the pass run again on its own output), tier_transparent (a machine that hands execution between interpreter and native tier at arbitrary instruction boundaries computes the result of the interpreter, for every schedule, given that a native instruction does what the interpreter's does) with tier_hypothesis_needed (a native call without arity check is observable), inline_history_partial (pieces evaluated one after another over global cells, each compiled by the unit-local inliner: same observations as without inlining for every history in which no piece assigns a cell an earlier piece could inline) and inline_history_false (the full statement is refuted by the history define f, define g calling f / set! f / call g), switches_covered + quick_pairwise + thorough_complete (the configuration sets used by the run cover the five switches found in the source). NOT proved: that the Cranelift tier implements each op code like the interpreter (the hypothesis of tier_transparent), closure lifting, cross-module inlining, the recursive inliner, constant propagation; these are covered only by the differential run, which is a per-program fact.",
@@ -200,6 +201,7 @@ class Batch:
         self.cls = []        # per item: list of bool per piece (inside the class of K02a) or None
         self.model = []      # per item: expected values from the Lean model (dict) or None
         self.meta = []
+        self.nospec = False  # the reference semantics has no reading of these items (modules)
 
     def add(self, pieces, spec=None, cls=None, model=None, meta=None):
         self.items.append(list(pieces))
@@ -281,8 +283,25 @@ def own_findings():
 CLASS_NAMES = {
     "K02a": "global_defined_and_used_in_one_unit_assigned_later",
     "K02b": "wrong_operand_count_call_under_recursive_inliner",
+    "K02c": "export_assigned_inside_its_module_after_import",
+    "K02d": "module_procedure_assigned_inside_its_module",
 }
+CLASS_ALIASES = {"K02a": ("global_defined_and_read_in_one_unit_assigned_later",)}   # K06a: the same defect seen by C06
 IDX_INLINE_RECURSIVE = SWITCH_NAMES.index("STEEL_INLINE_RECURSIVE")
+IDX_MODULE_INLINE = SWITCH_NAMES.index("STEEL_MODULE_INLINE")
+IDX_INLINE = SWITCH_NAMES.index("STEEL_INLINE")
+
+
+def in_class(cls, kid, j):
+    """cls: None | list of bool (K02a per piece) | dict kid -> bool / list of bool."""
+    if cls is None:
+        return False
+    if isinstance(cls, list):
+        cls = {"K02a": cls}
+    v = cls.get(kid)
+    if isinstance(v, list):
+        return bool(j < len(v) and v[j])
+    return bool(v)
 
 
 def read_sexps(text):
@@ -350,7 +369,7 @@ def process(ctx, batch, configs, values, stats, known):
     names = [cfg_name(c) for c in configs]
     by_name = dict(zip(names, configs))
     recs = run_all_configs(batch.items, configs, values)
-    spec, src = run_spec(batch.spec)
+    spec, src = ([None] * len(batch.items), 0) if batch.nospec else run_spec(batch.spec)
     ctx.log("%s: %d items x %d configurations in %.0fs" % (batch.label, len(batch.items), len(configs), time.time() - t))
     if src != 0 or len(spec) != len(batch.items):
         ctx.notes.append("%s: reference evaluator returned %d of %d items (rc=%d)" % (batch.label, len(spec), len(batch.items), src))
@@ -370,40 +389,48 @@ def process(ctx, batch, configs, values, stats, known):
             ra = recs[ca][i][j] if recs[ca][i] else None
             rb = recs[cb][i][j] if recs[cb][i] else None
             stats["config_differences"] += 1
-            in_class = bool(batch.cls[i] and batch.cls[i][j])
+            k02a = in_class(batch.cls[i], "K02a", j)
             note = ""
             if batch.model[i] is not None:
                 note = "model: %s" % batch.model[i].get("text", "")
-            if in_class and "K02a" in known:
-                # attributed to K02a: class predicate holds.  (The faithful model of the unit-local inliner
-                # predicts the stale value for the default configuration on model histories: checked below.)
-                ctx.known_finding("id=K02a " + known["K02a"])
-                stats["known_hits"]["K02a"] = stats["known_hits"].get("K02a", 0) + 1
-                if len(stats["known_samples"]) < 3:
-                    stats["known_samples"].append({"pieces": pieces[: j + 1], "A": cfg_text(by_name[ca], values), "B": cfg_text(by_name[cb], values),
+            attributed = None
+            if k02a and "K02a" in known:
+                # class predicate holds (the faithful model of the unit-local inliner predicts the stale value of
+                # the default configuration on model histories: checked by check_model when configurations agree)
+                attributed = "K02a"
+            elif "K02b" in known and wrong_arity_call(pieces[: j + 1]) and \
+                    first_difference(recs, i, j + 1, [n for n in names if n[IDX_INLINE_RECURSIVE] == "0"]) is None:
+                # only the configurations with STEEL_INLINE_RECURSIVE deviate
+                attributed = "K02b"
+            elif "K02c" in known and in_class(batch.cls[i], "K02c", j) and \
+                    first_difference(recs, i, j + 1, [n for n in names if n[IDX_MODULE_INLINE] == "0"]) is None and \
+                    first_difference(recs, i, j + 1, [n for n in names if n[IDX_MODULE_INLINE] == "1"]) is None:
+                # the configurations split exactly along STEEL_MODULE_INLINE
+                attributed = "K02c"
+            elif "K02d" in known and in_class(batch.cls[i], "K02c", j) and \
+                    first_difference(recs, i, j + 1, [n for n in names if n[IDX_MODULE_INLINE] == "0" and n[IDX_INLINE] == "0"]) is None:
+                # a module that assigns its own procedure; only configurations with STEEL_INLINE or
+                # STEEL_MODULE_INLINE deviate from the default
+                attributed = "K02d"
+            if attributed:
+                ctx.known_finding("id=%s %s" % (attributed, known[attributed]))
+                stats["known_hits"][attributed] = stats["known_hits"].get(attributed, 0) + 1
+                if sum(1 for x in stats["known_samples"] if x["id"] == attributed) < 2:
+                    stats["known_samples"].append({"id": attributed, "pieces": pieces[: j + 1], "A": cfg_text(by_name[ca], values),
+                                                   "B": cfg_text(by_name[cb], values),
                                                    "A_result": str(ra["res"]) if ra else None, "B_result": str(rb["res"]) if rb else None})
                 continue
-            if "K02b" in known and wrong_arity_call(pieces[: j + 1]):
-                # only the configurations with STEEL_INLINE_RECURSIVE deviate
-                plain_names = [n for n in names if n[IDX_INLINE_RECURSIVE] == "0"]
-                if first_difference(recs, i, j + 1, plain_names) is None:
-                    ctx.known_finding("id=K02b " + known["K02b"])
-                    stats["known_hits"]["K02b"] = stats["known_hits"].get("K02b", 0) + 1
-                    if len(stats["known_samples"]) < 6:
-                        stats["known_samples"].append({"id": "K02b", "pieces": pieces[: j + 1], "A": cfg_text(by_name[ca], values), "B": cfg_text(by_name[cb], values),
-                                                       "A_result": str(ra["res"]) if ra else None, "B_result": str(rb["res"]) if rb else None})
-                    continue
             small = pieces[: j + 1]
             if stats["shrunk"] < 3:
                 small = shrink(small, by_name[ca], by_name[cb], values)
                 stats["shrunk"] += 1
             ctx.violation("C02-%s-%d.txt" % (batch.label, i),
                           replay_text(small, by_name[ca], by_name[cb], ra, rb, values, j,
-                                      note + (" (original history had %d pieces; in class K02a: %s)" % (len(pieces), in_class))))
+                                      note + (" (original history had %d pieces; in class K02a: %s)" % (len(pieces), k02a))))
             continue
         # all configurations agree: compare with the reference semantics / the model (third parties)
         s = spec[i]
-        if base is None or s is None:
+        if base is None or s is None or batch.nospec:
             continue
         for j, (r, m) in enumerate(zip(base, s)):
             if r is None or m is None:
@@ -413,10 +440,10 @@ def process(ctx, batch, configs, values, stats, known):
                 break
             if not same_as_spec(r, m):
                 stats["agree_but_differ_from_S"] += 1
-                in_class = bool(batch.cls[i] and batch.cls[i][j])
-                key = "in_class_K02a" if in_class else "other"
+                inc = in_class(batch.cls[i], "K02a", j)
+                key = "in_class_K02a" if inc else "other"
                 stats["agree_but_differ_classes"][key] = stats["agree_but_differ_classes"].get(key, 0) + 1
-                if len(stats["abd_samples"]) < 4 and not in_class:
+                if len(stats["abd_samples"]) < 4 and not inc:
                     stats["abd_samples"].append({"batch": batch.label, "pieces": pieces[: j + 1], "real(all configs)": str(r["res"]), "S": str(m["res"]),
                                                  "real_out": r["out"][:100], "S_out": m["out"][:100]})
                 break
@@ -458,12 +485,14 @@ def corpus_items():
     out = []
     cdir = os.path.join(C.VERIF, "corpus", "C02")
     for fn in sorted(os.listdir(cdir)) if os.path.isdir(cdir) else []:
+        if not os.path.isfile(os.path.join(cdir, fn)):
+            continue
         text = "\n".join(l for l in open(os.path.join(cdir, fn)).read().split("\n") if not l.startswith("#"))
-        k02a = fn.startswith("k02a")
+        cls = {"K02a": fn.startswith("k02a"), "K02c": fn.startswith("k02c") or fn.startswith("k02d")}
         for p in text.split(SEP):
             if p.strip():
                 pieces = [x.strip("\n") for x in p.strip("\n").split(PSEP)]
-                out.append((fn, pieces, k02a))
+                out.append((fn, pieces, cls))
     return out
 
 
@@ -553,7 +582,14 @@ def run(ctx):
              "abd_samples": [], "spec_timeouts": 0, "model_compared": 0, "model_vs_real": 0, "model_samples": [],
              "frag_programs": 0, "frag_with_inlining": 0, "model_inliner_changes_value": 0, "model_histories": 0,
              "model_histories_in_guard": 0, "features": {}}
-    known = {k["id"]: k["text"].split(" ", 3)[-1] for k in ctx.load_known() if "id" in k}
+    # open findings: listed in KNOWN_FINDINGS.txt (matched by id or by class name), or - until the coordinator has
+    # listed them - written up by this check under findings/C02-K02*.txt
+    known = {}
+    for k in ctx.load_known():
+        for kid, cname in CLASS_NAMES.items():
+            if k.get("id") == kid or k.get("class") in (cname,) + CLASS_ALIASES.get(kid, ()):
+                known[kid] = k["text"].split(" ", 3)[-1]
+    listed = set(known)
     for kid, text in own_findings().items():
         known.setdefault(kid, text)
     rc, tout = C.sh(["python3", os.path.join(C.VERIF, "translate", "c02_switches.py")], timeout=120)
@@ -591,13 +627,13 @@ def run(ctx):
 
     # 1. directed corpus
     b = Batch("corpus")
-    for fn, pieces, k02a in corpus_items():
-        b.add(pieces, cls=[k02a] * len(pieces), meta=fn)
+    for fn, pieces, cls in corpus_items():
+        b.add(pieces, cls=cls, meta=fn)
     process(ctx, b, configs, values, stats, known)
 
     # 2. whole programs
     b = Batch("prog")
-    for _ in range(90 if q else 4000):
+    for _ in range(80 if q else 450):
         src, feats = gen_program(rng, 3 if q else 4)
         for f in feats:
             stats["features"][f] = stats["features"].get(f, 0) + 1
@@ -605,20 +641,42 @@ def run(ctx):
     process(ctx, b, configs, values, stats, known)
 
     # 3. lowered-core programs: model value (evalIR, with and without the model's inlining) = value under every configuration
-    b = frag_batch(rng, 60 if q else 3000, stats, ctx)
+    b = frag_batch(rng, 50 if q else 250, stats, ctx)
     process(ctx, b, configs, values, stats, known)
-    # 4. whole-language histories: main stream (outside the class of K02a) and the K02a stream
-    for stream, n in (("main", 50 if q else 1500), ("k02a", 14 if q else 300)):
+    # 4. whole-language histories: main stream (outside the classes of the findings), the K02a stream (random +
+    #    directed patterns) and the K02b patterns
+    for stream, n in (("main", 50 if q else 300), ("k02a", 12 if q else 50)):
         b = Batch("hist-" + stream)
-        for _ in range(n):
-            h = gen_history(rng, rng.randint(6, 12) if q else rng.randint(8, 20), stream)
+        for k in range(n):
+            if stream == "k02a" and k % 2 == 0:
+                h = gen_k02a_pattern(rng)
+            else:
+                h = gen_history(rng, rng.randint(6, 12) if q else rng.randint(8, 20), stream)
             for f in h["features"]:
                 stats["features"][f] = stats["features"].get(f, 0) + 1
             b.add(h["pieces"], spec=h["spec"], cls=h["k02a"])
         process(ctx, b, configs, values, stats, known)
+    b = Batch("k02b")
+    for _ in range(6 if q else 24):
+        h = gen_k02b_pattern(rng)
+        for f in h["features"]:
+            stats["features"][f] = stats["features"].get(f, 0) + 1
+        b.add(h["pieces"], spec=h["spec"])
+    process(ctx, b, configs, values, stats, known)
+
+    # 4b. programs over user modules (STEEL_MODULE_INLINE); the reference semantics has no modules
+    moddir = os.path.join(ctx.scratch, "mods")
+    for stream, n in (("main", 16 if q else 120), ("k02c", 6 if q else 24)):
+        b = Batch("mod-" + stream)
+        b.nospec = True
+        for _ in range(n):
+            h = gen_module_program(rng, moddir, stream)
+            stats["features"]["modules"] = stats["features"].get("modules", 0) + 1
+            b.add(h["pieces"], cls={"K02c": h["k02c"]})
+        process(ctx, b, configs, values, stats, known)
 
     # 5. model histories (lowered-core): the Lean model predicts the value under every configuration inside the guard
-    b = model_hist_batch(rng, 30 if q else 800, stats, ctx)
+    b = model_hist_batch(rng, 30 if q else 160, stats, ctx)
     process(ctx, b, configs, values, stats, known)
 
     for kid in known:
@@ -643,6 +701,7 @@ def run(ctx):
         "rule": "item = one program or one piecewise history on a fresh engine; evaluation = one piece under one configuration; distinct = different source text; every item defines procedures and observes calls; histories redefine / set! globals that earlier pieces compiled calls to",
         "outcomes_default_config": stats["outcomes"], "config_differences": stats["config_differences"],
         "known_finding_hits": stats["known_hits"], "known_finding_samples": stats["known_samples"],
+        "findings_listed_in_KNOWN_FINDINGS": sorted(listed), "findings_only_under_findings_dir": sorted(set(known) - listed),
         "agree_but_differ_from_S": stats["agree_but_differ_from_S"], "agree_but_differ_from_S_classes": stats["agree_but_differ_classes"],
         "agree_but_differ_from_S_samples": stats["abd_samples"], "spec_timeouts": stats["spec_timeouts"],
         "fragment_programs": stats["frag_programs"], "fragment_programs_changed_by_model_inliner": stats["frag_with_inlining"],
